@@ -147,7 +147,9 @@ def run(ctx):
     import q1_udpout
     q1_udpout.correspond(ctx)         # ties TLX.Quic.UdpOut to the real QUICOutputbuilder
     import c05
-    c05.reasm_corr(ctx, frac=0.3)     # ties TLX.Reassembly (carriers, online delivery) to the real Session
+    # ties TLX.Reassembly (carriers, online delivery) to the real Session; C05's own framing oracle (and its open known
+    # finding) stays in C05
+    c05.reasm_corr(ctx, frac=0.3, oracle=False)
     session_corr.correspond(ctx)      # ties TLX.Session to the real Session
     explore(ctx)
     return ctx.finish(search=lambda c: explore(c, scale=2))
